@@ -1,7 +1,9 @@
 package c16
 
 import (
+	"bytes"
 	"context"
+	"crypto/sha256"
 	"encoding/binary"
 	"encoding/json"
 	"errors"
@@ -306,8 +308,14 @@ func driveStore(dir string, opts *store.Options, ro bool) error {
 		note(err)
 	}
 	if !ro {
-		_, err := sth.Commit(st, sth.KV{K: []byte("after-open"), V: []byte("v")})
+		// AsyncCommit: do not wait for an indexer that may be unable to progress on corrupted data
+		tx, err := st.NewWriteOnlyTx(context.Background())
 		note(err)
+		if err == nil {
+			note(tx.Set([]byte("after-open"), nil, []byte("v")))
+			_, err = tx.AsyncCommit(context.Background())
+			note(err)
+		}
 	}
 	return first
 }
@@ -476,6 +484,29 @@ func mutationsOf(rel string, b []byte, r interface{ IntN(int) int }, randomN int
 	switch {
 	case strings.HasSuffix(rel, ".tx") && !strings.Contains(rel, "flate"):
 		fields = append(fields, txLogFields(b, hl)...)
+	case strings.HasPrefix(rel, "index/nodes") || strings.HasPrefix(rel, "index/history"):
+		// indexed values: vLen(4) vOff(8) hVal(32) txmdLen(2) txmd kvmdLen(2) kvmd; located through the known value digests
+		for vi, v := range corpusValues() {
+			h := sha256.Sum256(v)
+			for from := hl; ; {
+				k := bytes.Index(b[from:], h[:])
+				if k < 0 {
+					break
+				}
+				pos := from + k
+				from = pos + 32
+				if vi%3 != 0 && pos%5 != 0 {
+					continue // a sample of the occurrences is enough
+				}
+				if pos-12 >= hl && pos+36 <= len(b) {
+					txmdLen := int(binary.BigEndian.Uint16(b[pos+32:]))
+					fields = append(fields, field{pos - 12, 4, "idx.vLen"}, field{pos - 8, 8, "idx.vOff"}, field{pos + 32, 2, "idx.txmdLen"})
+					if txmdLen <= 300 && pos+36+txmdLen <= len(b) {
+						fields = append(fields, field{pos + 34 + txmdLen, 2, "idx.kvmdLen"})
+					}
+				}
+			}
+		}
 	case strings.HasSuffix(rel, ".txi"):
 		n := (len(b) - hl) / 12
 		for _, e := range []int{0, 1, n / 2, n - 2, n - 1} {
@@ -551,6 +582,18 @@ func mutationsOf(rel string, b []byte, r interface{ IntN(int) int }, randomN int
 	return out
 }
 
+// corpusValues lists the values committed by populate (their digests locate indexed values).
+func corpusValues() [][]byte {
+	vs := [][]byte{[]byte("v1"), []byte("v1b"), val(1, 'a'), val(100, 'b'), val(1000, 'c'), val(3000, 'd'), []byte("expiring"), []byte("x"), []byte("with-extra"), []byte("with-both"), []byte("v1c")}
+	for i := 0; i < 16; i++ {
+		vs = append(vs, val(i*7, byte('0'+i)))
+	}
+	for i := 0; i < 3; i++ {
+		vs = append(vs, []byte(fmt.Sprintf("v1-%d", i)), val(10+i, 'B'))
+	}
+	return vs
+}
+
 func regionOfFields(fs []field, off int) string {
 	for _, f := range fs {
 		if off >= f.Off && off < f.Off+f.Size {
@@ -576,7 +619,7 @@ func runFiles(c *fw.Ctx, co *Corpora, setup []byte, confirm *[]confirmReq) {
 		corpora = append(corpora, k)
 	}
 	sort.Strings(corpora)
-	perFile := c.N(110, 2600) // cases per (corpus, file), spread round-robin over the mutation classes
+	perFile := c.N(260, 2600) // cases per (corpus, file), spread round-robin over the mutation classes
 	var cases [][]byte
 	var meta []fileCase
 	for _, corpus := range corpora {
@@ -610,7 +653,7 @@ func runFiles(c *fw.Ctx, co *Corpora, setup []byte, confirm *[]confirmReq) {
 		}
 		budget := perFile
 		if corpus != "store-v1" {
-			budget = perFile / 3
+			budget = perFile / 5
 		}
 		for _, rel := range files {
 			b, err := os.ReadFile(filepath.Join(dir, rel))
@@ -628,7 +671,16 @@ func runFiles(c *fw.Ctx, co *Corpora, setup []byte, confirm *[]confirmReq) {
 				}
 				byClass[m.class] = append(byClass[m.class], m)
 			}
+			// structure fields of the data region first, the rest in PRNG order
 			sort.Strings(classes)
+			r.Shuffle(len(classes), func(i, j int) { classes[i], classes[j] = classes[j], classes[i] })
+			prio := func(cl string) int {
+				if strings.Contains(cl, ":field:") && !strings.Contains(cl, ":field:hdr.") {
+					return 0
+				}
+				return 1
+			}
+			sort.SliceStable(classes, func(i, j int) bool { return prio(classes[i]) < prio(classes[j]) })
 			var sel []fmut
 			for round := 0; len(sel) < budget; round++ {
 				added := false
@@ -668,7 +720,7 @@ func runFiles(c *fw.Ctx, co *Corpora, setup []byte, confirm *[]confirmReq) {
 		sc[i], sm[i] = cases[p], meta[p]
 	}
 	c.Set("file_level_cases", len(sc))
-	c.RunCases("c16file", setup, sc, fw.CasesOpts{Workers: 14, CaseTimout: 120 * time.Second, ASLimit: asLimit}, func(r fw.CaseResult) {
+	c.RunCases("c16file", setup, sc, fw.CasesOpts{Workers: 14, CaseTimout: 40 * time.Second, ASLimit: asLimit}, func(r fw.CaseResult) {
 		fc := sm[r.Index]
 		d, _ := json.Marshal(fc)
 		files := map[string][]byte{"case.json": d}
@@ -678,7 +730,11 @@ func runFiles(c *fw.Ctx, co *Corpora, setup []byte, confirm *[]confirmReq) {
 			*confirm = append(*confirm, confirmReq{Child: "c16file", B: batch{EP: fc.EP}, Text: r.Text, Data: d})
 			return
 		case r.Crashed:
-			sig := crashSig(fc.EP, r.Text)
+			sig := crashSig(fc.EP, regionOfClass(fc.Class), r.Text)
+			if sig == "" {
+				c.Inconclusive("c16file: child ran out of address space on a small allocation: " + desc + ": " + firstLines(r.Text, 2))
+				return
+			}
 			files["stderr.txt"] = []byte(r.Text)
 			c.Eval(1)
 			c.Count("inputs:"+fc.EP, 1)
@@ -702,6 +758,9 @@ func runFiles(c *fw.Ctx, co *Corpora, setup []byte, confirm *[]confirmReq) {
 		c.Count("inputs_total", 1)
 		c.Count("file_cases", 1)
 		c.Distinct(fc.EP + "|" + fc.Class + "|" + out.Outcome)
+		if out.Outcome == "alloc-over" {
+			out.Sig = allocSig(fc.EP, regionOfClass(fc.Class))
+		}
 		if out.Sig != "" {
 			files["panic.txt"] = []byte(out.Text)
 			violate(c, out.Sig, fmt.Sprintf("%s, alloc %d bytes\n%s", desc, out.Alloc, firstLines(out.Text, 16)), files)
